@@ -238,6 +238,47 @@ let () =
           let bin = if mc = "1" then Some ((bytes_of_hex bytes, nat_of_int (int_of_string rel)), nat_of_int (int_of_string imm)) else None in
           let c = if comment = "-" then [] else text_of_string comment in
           Printf.printf "F %s\n" (show_line (Fmt.finish_line (text_of_string text) (nat_of_int (int_of_string pad1)) (nat_of_int (int_of_string pad2)) bin c))
+        | "ED" :: arch :: _ff :: ind :: kind :: r ->
+          let is64 = (arch = a64) in
+          let line = (match kind, r with
+            | "A", _mode :: n :: _ -> Fmt.fmt_align_line (nat_of_int (int_of_string ind)) (cz_of_string n)
+            | "B", hx :: _ -> Fmt.fmt_data is64 (zi 1) (bytes_of_hex hx) (zi 1)
+            | "T", ts :: rep :: hx :: _ -> Fmt.fmt_data is64 (cz_of_string ts) (bytes_of_hex hx) (cz_of_string rep)
+            | "L", li :: sz :: _ -> Fmt.fmt_embed_label is64 (cz_of_string sz) (cz_of_string li)
+            | "D", li :: bi :: sz :: _ -> Fmt.fmt_embed_delta is64 (cz_of_string sz) (cz_of_string li) (cz_of_string bi)
+            | "C", txt :: _ -> text_of_string txt
+            | _ -> raise (Bad "ED")) in
+          Printf.printf "ED %s$\n" (string_of_text line)
+        | "P" :: "ED" :: arch :: kind :: _ ->
+          (* the proven readers of Directives.v on a logged line *)
+          let (_, text) = split_bar line in
+          let is64 = (arch = a64) in
+          let rec int_of_nat = function Fmt.O -> 0 | Fmt.S k -> 1 + int_of_nat k in
+          (match kind with
+           | "A" -> (match Fmt.parse_align_line (text_of_string text) with
+                     | Some (i, n) -> Printf.printf "P %d %s\n" (int_of_nat i) (string_of_cz n) | None -> print_endline "P <no parse>")
+           | "L" -> (match Fmt.parse_embed_label is64 (text_of_string text) with
+                     | Some (sz, id) -> Printf.printf "P %s %s\n" (string_of_cz sz) (string_of_cz id) | None -> print_endline "P <no parse>")
+           | "D" -> (match Fmt.parse_embed_delta is64 (text_of_string text) with
+                     | Some ((sz, id), b) -> Printf.printf "P %s %s %s\n" (string_of_cz sz) (string_of_cz id) (string_of_cz b) | None -> print_endline "P <no parse>")
+           | _ -> raise (Bad "P ED"))
+        | "FI" :: ind :: pad1 :: pad2 :: mc :: bytes :: rel :: imm :: comment :: _ ->
+          (* logger line with indentation / padding options *)
+          let (_, text) = split_bar line in
+          let bin = if mc = "1" then Some ((bytes_of_hex bytes, nat_of_int (int_of_string rel)), nat_of_int (int_of_string imm)) else None in
+          let c = if comment = "-" then [] else text_of_string comment in
+          Printf.printf "FI %s\n" (show_line (Fmt.log_line (nat_of_int (int_of_string ind)) (text_of_string text) (nat_of_int (int_of_string pad1)) (nat_of_int (int_of_string pad2)) bin c))
+        | "FL" :: ind :: pad1 :: pad2 :: mc :: id :: comment :: _ ->
+          let c = if comment = "-" then [] else text_of_string comment in
+          Printf.printf "FL %s\n" (show_line (Fmt.label_line (nat_of_int (int_of_string ind)) (Fmt.label_text (cz_of_string id)) (nat_of_int (int_of_string pad1))
+                                                (nat_of_int (int_of_string pad2)) (mc = "1") c))
+        | "GI" :: _ ->
+          let (_, text) = split_bar line in
+          let l = String.map (fun c -> if c = '$' then '\n' else c) text in
+          let rec int_of_nat = function Fmt.O -> 0 | Fmt.S k -> 1 + int_of_nat k in
+          (match Fmt.parse_log_line_ind (text_of_string l) with
+           | Some (((n, t), col), cm) -> Printf.printf "GI %d|%s|%s|%s\n" (int_of_nat n) (string_of_text t) (string_of_text col) (string_of_text cm)
+           | None -> print_endline "GI <no parse>")
         | "Y" :: a64f :: size :: rep :: hx :: _ ->
           Printf.printf "Y %s\n" (string_of_text (Fmt.fmt_data (a64f = "1") (cz_of_string size) (bytes_of_hex hx) (cz_of_string rep)))
         | "Z" :: ff :: inl :: pos :: kind :: r ->
@@ -252,6 +293,14 @@ let () =
                           (* pinned tree: the repeat count is not included; with fixes/C20-embed-node-totalsize.patch it is *)
                           cz_of_z (Z.mul (Z.mul (Z.of_string size) (Z.of_string count)) (if embed_total_fixed then Z.of_string rep else Z.one)))
             | "S", nm :: _ -> Fmt.NSection (text_of_string nm)
+            | "EL", id :: size :: _ -> Fmt.NEmbedLabel (cz_of_string id, cz_of_string size)
+            | "EX", id :: base :: size :: _ -> Fmt.NEmbedLabelDelta (cz_of_string id, cz_of_string base, cz_of_string size)
+            | "CP", n :: m2 :: _ ->
+              (* ConstPool: size = 8-byte constants then 16-byte constants, each group aligned to its size; alignment = the largest item size *)
+              let n = int_of_string n and m2 = int_of_string m2 in
+              let size = if m2 = 0 then 8 * n else ((8 * n + 15) / 16) * 16 + 16 * m2 in
+              Fmt.NConstPool (zi size, zi (if m2 > 0 then 16 else if n > 0 then 8 else 0))
+            | "SN", fe :: _ -> Fmt.NSentinel (fe = "1")
             | "I", r -> let (i, _, _) = read_inst ~with_comment:false r in Fmt.NInst i
             | _ -> raise (Bad "node")) in
           Printf.printf "Z %s\n" (string_of_text (Fmt.fmt_node_pos (int_of_string ff land ff_positions <> 0) (cz_of_string pos) f (nat_of_int 44) node
@@ -321,31 +370,48 @@ let () =
           let env = [ (None, Fmt.Gp64); (Some (text_of_string "fnptr"), Fmt.Gp64) ] in
           let i = { Fmt.i_mnem = text_of_string "call"; i_opts = opts_of 0; i_extra = None; i_ops = [tgt] } in
           Printf.printf "QI %s\n" (string_of_text (Fmt.fmt_inst_virt env (ff land ff_reg_type <> 0) (ff land ff_reg_casts <> 0) (fflags_of ff) i []))
-        | "Q" :: _ff :: ret :: nargs :: r ->
-          let tyname = function "1" -> "int32" | "2" -> "uint32" | "3" -> "int64" | "4" -> "uint64" | "5" -> "float32" | "6" -> "float64" | _ -> "void" in
-          let n = int_of_string nargs in
-          let rec take k l acc = if k = 0 then (List.rev acc, l) else (match l with ty :: b :: rest -> take (k - 1) rest ((ty, b) :: acc) | _ -> raise (Bad "Q args")) in
-          let (args, rest) = take n r [] in
-          let rest = (match rest with "E" :: t -> t | _ -> raise (Bad "Q expectation")) in
-          let read_assign toks = (match toks with
-            | "R" :: t :: id :: tl -> (Fmt.FAReg (Fmt.rt_of_code (cz_of_string t), cz_of_string id), tl)
-            | "S" :: off :: tl -> (Fmt.FAStack (cz_of_string off), tl)
-            | "V" :: tl -> (Fmt.FANone, tl)
+        | "Q" :: arch :: r ->
+          (* Q arch nrets (type A)* nargs (type A name)* ; A = N | R regtype id (d|i) | S offset (d|i) ; name "-" = no register bound *)
+          let read_a mk toks = (match toks with
+            | "N" :: tl -> (None, tl)
+            | "R" :: t :: id :: ind :: tl -> (Some (ind = "i", Fmt.FAReg (mk t id)), tl)
+            | "S" :: off :: ind :: tl -> (Some (ind = "i", Fmt.FAStack (cz_of_string off)), tl)
             | _ -> raise (Bad "assign")) in
-          let (ra, rest) = read_assign rest in
-          let rets = if ret = "0" then [] else [ (text_of_string (tyname ret), ra) ] in
-          let vcount = ref 0 in
-          let rec build i args rest acc = (match args with
-            | [] -> List.rev acc
-            | (ty, b) :: tl ->
-              let (a, rest') = read_assign rest in
-              let nm = (match b with
-                | "-" -> None
-                | "u" -> let k = !vcount in incr vcount; Some (text_of_string ("%" ^ string_of_int k))
-                | _ -> incr vcount; Some (text_of_string ("a" ^ string_of_int i))) in
-              build (i + 1) tl rest' (((text_of_string (tyname ty), a), nm) :: acc)) in
-          let al = build 0 args rest [] in
-          Printf.printf "Q %s\n" (string_of_text (Fmt.fmt_func_node (zi 1) rets al))
+          let go : 'r. (string -> string -> 'r) -> ('r -> Fmt.text) -> unit = fun mk rp ->
+            (match r with
+             | nr :: rest ->
+               let rec rets k toks acc = if k = 0 then (List.rev acc, toks) else
+                   (match toks with ty :: tl -> let (a, tl') = read_a mk tl in rets (k - 1) tl' ((text_of_string ty, a) :: acc) | [] -> raise (Bad "Q rets")) in
+               let (rl, rest) = rets (int_of_string nr) rest [] in
+               (match rest with
+                | na :: rest ->
+                  let rec args k toks acc = if k = 0 then List.rev acc else
+                      (match toks with
+                       | ty :: tl -> let (a, tl') = read_a mk tl in
+                         (match tl' with nm :: tl'' -> args (k - 1) tl'' (((text_of_string ty, a), (if nm = "-" then None else Some (text_of_string nm))) :: acc)
+                                       | [] -> raise (Bad "Q arg name"))
+                       | [] -> raise (Bad "Q args")) in
+                  let al = args (int_of_string na) rest [] in
+                  Printf.printf "Q %s\n" (string_of_text (Fmt.fmt_func_node rp (zi 1) rl al))
+                | [] -> raise (Bad "Q"))
+             | [] -> raise (Bad "Q")) in
+          if arch = a64 then go (fun t id -> (Fmt.a64rt_of_code (cz_of_string t), cz_of_string id)) Fmt.a64_rp
+          else go (fun t id -> (Fmt.rt_of_code (cz_of_string t), cz_of_string id)) Fmt.x86_rp
+        | "P" :: "Q" :: arch :: _ ->
+          (* the proven reader on one function value as printed by AsmJit *)
+          let (_, text) = split_bar line in
+          let show ty a sr = (match a with
+            | None -> Printf.sprintf "%s N" (string_of_text ty)
+            | Some (ind, Fmt.FAReg r) -> Printf.sprintf "%s R %s %s" (string_of_text ty) (sr r) (if ind then "i" else "d")
+            | Some (ind, Fmt.FAStack off) -> Printf.sprintf "%s S %s %s" (string_of_text ty) (string_of_cz off) (if ind then "i" else "d")) in
+          if arch = a64 then
+            (match Fmt.parse_fvalue Fmt.a64_pr (text_of_string text) with
+             | Some (ty, a) -> Printf.printf "P %s\n" (show ty a (fun (t, i) -> Printf.sprintf "%s %s" (string_of_cz (Fmt.a64rt_code t)) (string_of_cz i)))
+             | None -> print_endline "P <no parse>")
+          else
+            (match Fmt.parse_fvalue Fmt.parse_reg_name (text_of_string text) with
+             | Some (ty, a) -> Printf.printf "P %s\n" (show ty a (fun (t, i) -> Printf.sprintf "%s %s" (show_rt t) (string_of_cz i)))
+             | None -> print_endline "P <no parse>")
         | "W6" :: _ff :: optype :: vidx :: _vtype :: name :: et :: ei :: _ ->
           let ot = Fmt.a64rt_of_code (cz_of_string optype) in
           if name = "!" then
@@ -386,6 +452,24 @@ let () =
            | None -> print_endline "C <unparsable>"
            | Some l -> Printf.printf "C %s\n" (String.concat " " (List.map (function None -> ".." | Some b -> Printf.sprintf "%02x" (Z.to_int (z_of_cz b))) l)))
         | "C" :: [] -> print_endline "C "
+        | "P" :: "V" :: nv :: r ->
+          let (_, text) = split_bar line in
+          let rec env n toks acc = if n = 0 then (List.rev acc, toks) else
+              (match toks with
+               | vt :: nm :: rest -> env (n - 1) rest (((if nm = "-" then None else Some (text_of_string nm)), Fmt.rt_of_code (cz_of_string vt)) :: acc)
+               | _ -> raise (Bad "venv")) in
+          let (e, rest) = env (int_of_string nv) r [] in
+          (* the side conditions of the theorem are checked on the environment *)
+          let names_ok = List.for_all (fun (nm, _) -> match nm with None -> true | Some n -> Fmt.name_okb n) e in
+          let got = (match Fmt.read_reg e (text_of_string text) with
+            | Some (Fmt.RPhys (t, i)) -> Printf.sprintf "R %s %s" (show_rt t) (string_of_cz i)
+            | Some (Fmt.RVirt (i, c)) -> Printf.sprintf "V %s %s" (string_of_cz i) (match c with None -> "-" | Some t -> show_rt t)
+            | None -> "<no parse>") in
+          (match rest with
+           | k :: a :: b :: _ ->
+             if not names_ok then print_endline "P MISMATCH names outside the alphabet"
+             else if got = Printf.sprintf "%s %s %s" k a b then print_endline "P ok" else Printf.printf "P MISMATCH parsed=%s\n" got
+           | _ -> raise (Bad "P V"))
         | "P" :: "W" :: idx :: ty :: _ ->
           let (_, text) = split_bar line in
           (match Fmt.parse_virt (text_of_string text) with
@@ -407,6 +491,17 @@ let () =
            | Some got when got = want -> print_endline "P ok"
            | Some got -> Printf.printf "P MISMATCH parsed=%s\n" (show_op got)
            | None -> print_endline "P MISMATCH parsed=<no parse>")
+        | "P" :: "XS6" :: _ ->
+          let (_, text) = split_bar line in
+          (match Fmt.parse_a64_inst (text_of_string text) with
+           | Some got -> Printf.printf "P %s\n" (show_a64_inst got)
+           | None -> print_endline "P <no parse>")
+        | "P" :: "XS" :: _ ->
+          (* the proven line parser on a text, answer = what it read *)
+          let (_, text) = split_bar line in
+          (match Fmt.parse_inst (text_of_string text) with
+           | Some got -> Printf.printf "P %s\n" (show_inst got)
+           | None -> print_endline "P <no parse>")
         | "P" :: "X" :: arch :: r when arch = x64 ->
           let (_, text) = split_bar line in
           let (i, _, _) = read_inst ~with_comment:false r in
